@@ -7,7 +7,7 @@
    (Independence). *)
 From Coq Require Import ZArith List Bool Lia.
 From Mistletoe Require Import Base.Sx Base.PyStr Base.PyText Gen.GenRegex Gen.GenConfig Re.ReMatch Model.CoreTokens Model.Block Proofs.ReFirst
-     Proofs.BlockProgress Proofs.Independence Proofs.QuoteLaw Proofs.ListLaw Proofs.ListLaw2 Proofs.FenceLaw Proofs.Prose Proofs.PlainProse Spec.Fragment.
+     Proofs.BlockProgress Proofs.Independence Proofs.QuoteLaw Proofs.ListLaw Proofs.ListLaw2 Proofs.FenceLaw Proofs.Prose Proofs.PlainProse Proofs.ProseLines Proofs.HeadingLaw Spec.Fragment.
 Import ListNotations.
 Local Open Scope Z_scope.
 
@@ -112,10 +112,13 @@ Definition item_first_line (mk : marker) (pad : nat) (inner : list sline) : str 
   | _ => []
   end.
 
+(* a continuation line of a paragraph: a plain line that can be neither a setext underline nor a list item, without tabs *)
+Definition cont_okb (l : str) : bool := plain_line_b l && cont_first (hd 0 l) && negb (mem 9 l).
+
 Fixpoint wf_b (t : ftree) : bool :=
   match t with
-  | FPara c body => plain_line_b (c :: body) && negb (mem 9 (c :: body)) &&
-                    nomatch fl_block_token_ListItem_pattern re_block_token_ListItem_pattern c
+  | FPara c body more => plain_line_b (c :: body) && negb (mem 9 (c :: body)) &&
+                         nomatch fl_block_token_ListItem_pattern re_block_token_ListItem_pattern c && forallb cont_okb more
   | FFence ch n content =>
     ((ch =? 96) || (ch =? 126)) && Nat.leb 3 n && forallb sline_okb content && forallb notab_b content &&
     forallb (fun l => match l with SBlank => true | SLine _ c _ => negb (c =? ch) end) content
@@ -123,6 +126,9 @@ Fixpoint wf_b (t : ftree) : bool :=
   | FItem mk pad ts =>
     marker_okb mk && Nat.leb 1 pad && Nat.leb pad 4 && seq_ok_b ts && forallb wf_b ts && good_b (join_blank (map spell ts)) &&
     negb (thematic_start (item_first_line mk pad (join_blank (map spell ts))))
+  | FHead lv c body =>
+    Nat.leb 1 lv && Nat.leb lv 6 && plain_text (c :: body) && negb (mem 35 (c :: body)) && negb (mem 9 (c :: body)) &&
+    negb (is_space_c c) && negb (is_space_c (last (c :: body) 0))
   end.
 
 (* ---- the text of the spelled forms ---- *)
@@ -187,6 +193,7 @@ Section Main.
   Hypothesis Hl : list_first types = true.
   Hypothesis Hp : In BK_Paragraph types.
   Hypothesis Hf : fence_first types = true.
+  Hypothesis Hh : heading_first types = true.
 
   Definition P (f : nat) : Prop := forall t ln st, wf_b t = true -> (depth t <= f)%nat ->
     tokenize_block types (S f) (text_of (spell t)) ln st = ([pre_of md ln t], false, st_after st t).
@@ -214,24 +221,71 @@ Section Main.
   Lemma children_depth ts f : (S (fold_right (fun t m => Nat.max (depth t) m) 0%nat ts) <= S f)%nat -> Forall (fun t => (depth t <= f)%nat) ts.
   Proof. intros H. apply Forall_forall. intros t Hin. eapply depth_children; eassumption. Qed.
 
-  Lemma para_try rec c body ln st : wf_b (FPara c body) = true ->
-    try_types types rec types (text_of (spell (FPara c body))) ln st = Some (pre_of md ln (FPara c body), 1%nat, st).
+  Lemma head_wf lv c body : wf_b (FHead lv c body) = true -> head_ok lv c body /\ plain_text (c :: body) = true.
   Proof.
-    intros Hw. cbn [wf_b] in Hw. apply andb_true_iff in Hw as [Hw _]. apply andb_true_iff in Hw as [Hw _]. apply plain_line_reflect in Hw.
-    cbn [spell text_of map render_line pre_of]. unfold line_of. cbn [repeat app].
-    change (c :: body ++ [10]) with ((c :: body) ++ [10]).
-    apply (try_types_paragraph types rec (c :: body) ln st Hw types Hp).
+    cbn [wf_b]. intros H. repeat rewrite andb_true_iff in H. destruct H as [[[[[[H1 H2] H3] H4] _] H6] H7].
+    apply Nat.leb_le in H1, H2. apply negb_true_iff in H4, H6, H7.
+    split; [|exact H3]. repeat split; try assumption; try lia. apply plain_no; [reflexivity|exact H3].
+  Qed.
+
+  Lemma head_text lv c body : (1 <= lv)%nat -> text_of (spell (FHead lv c body)) = [hline lv (c :: body)].
+  Proof. intros H. cbn [spell text_of map]. rewrite (hline_sline lv c body H). reflexivity. Qed.
+
+  Lemma head_try rec lv c body rest ln st : wf_b (FHead lv c body) = true ->
+    try_types types rec types (text_of (spell (FHead lv c body)) ++ rest) ln st = Some (pre_of md ln (FHead lv c body), 1%nat, st).
+  Proof.
+    intros Hw. destruct (head_wf lv c body Hw) as [Hok _]. pose proof Hok as ((H1 & _) & _). rewrite head_text by exact H1. cbn [app pre_of].
+    apply (try_types_heading types rec lv c body rest ln st Hok types Hh).
+  Qed.
+
+  Lemma head_tokenize f lv c body ln st : wf_b (FHead lv c body) = true ->
+    tokenize_block types (S f) (text_of (spell (FHead lv c body))) ln st = ([pre_of md ln (FHead lv c body)], false, st).
+  Proof.
+    intros Hw. pose proof (head_try (tokenize_block types f) lv c body [] ln st Hw) as T. rewrite app_nil_r in T.
+    destruct (head_wf lv c body Hw) as [((H1 & _) & _) _]. rewrite head_text in * by exact H1.
+    cbn [tokenize_block length dispatch_loop]. rewrite T. reflexivity.
+  Qed.
+
+  Lemma cont_ok_reflect l : cont_okb l = true -> cont_line l /\ mem 9 l = false.
+  Proof.
+    unfold cont_okb. intros H. repeat rewrite andb_true_iff in H. destruct H as [[H1 H2] H3]. apply plain_line_reflect in H1. apply negb_true_iff in H3.
+    split; [split; assumption|exact H3].
+  Qed.
+
+  Lemma wf_para c body more : wf_b (FPara c body more) = true ->
+    plain_line (c :: body) /\ nomatch fl_block_token_ListItem_pattern re_block_token_ListItem_pattern c = true /\ Forall cont_line more.
+  Proof.
+    cbn [wf_b]. intros H. repeat rewrite andb_true_iff in H. destruct H as [[[H1 _] H2] H3]. apply plain_line_reflect in H1.
+    split; [exact H1|]. split; [exact H2|]. apply Forall_forall. intros l Hin. rewrite forallb_forall in H3. apply (cont_ok_reflect l (H3 l Hin)).
+  Qed.
+
+  Lemma para_text c body more : Forall cont_line more -> text_of (spell (FPara c body more)) = nl_lines ((c :: body) :: more).
+  Proof.
+    intros H. cbn [spell text_of map render_line nl_lines]. unfold line_of. cbn [repeat app]. f_equal. rewrite map_map. apply map_ext_in.
+    intros l Hin. rewrite Forall_forall in H. destruct (H l Hin) as [(_ & _ & Hne & _) _]. destruct l; [contradiction|reflexivity].
+  Qed.
+
+  Lemma para_pre ln c body more : pre_of md ln (FPara c body more) = PParagraph ln (nl_lines ((c :: body) :: more)).
+  Proof. reflexivity. Qed.
+
+  Lemma para_try rec c body more ln st : wf_b (FPara c body more) = true ->
+    try_types types rec types (text_of (spell (FPara c body more))) ln st = Some (pre_of md ln (FPara c body more), S (length more), st).
+  Proof.
+    intros Hw. destruct (wf_para c body more Hw) as (PL & _ & Hc). rewrite (para_text c body more Hc), para_pre.
+    pose proof (para_loop_prose types (ps_setext st) more [(c :: body) ++ [10]] 1 Hc) as PLoop. cbn [rev app] in PLoop.
+    unfold nl_lines. cbn [map].
+    rewrite (try_types_para_gen types rec (c :: body) _ ln st _ _ PL PLoop types Hp). reflexivity.
   Qed.
 
   Lemma tokenize_S f lines ln st :
     tokenize_block types (S f) lines ln st = dispatch_loop types (tokenize_block types f) (S (length lines)) lines ln [] false st.
   Proof. reflexivity. Qed.
 
-  Lemma para_tokenize f c body ln st : wf_b (FPara c body) = true ->
-    tokenize_block types (S f) (text_of (spell (FPara c body))) ln st = ([pre_of md ln (FPara c body)], false, st).
+  Lemma para_tokenize f c body more ln st : wf_b (FPara c body more) = true ->
+    tokenize_block types (S f) (text_of (spell (FPara c body more))) ln st = ([pre_of md ln (FPara c body more)], false, st).
   Proof.
-    intros Hw. rewrite tokenize_S. pose proof (para_try (tokenize_block types f) c body ln st Hw) as T.
-    cbn [spell text_of map length] in *. cbn [dispatch_loop]. rewrite T. reflexivity.
+    intros Hw. destruct (wf_para c body more Hw) as (PL & _ & Hc). rewrite (para_text c body more Hc), para_pre.
+    apply (prose_block types f (c :: body) more ln st Hp PL Hc).
   Qed.
 
   Lemma fence_text ch n content : (1 <= n)%nat -> text_of (spell (FFence ch n content)) = fence_block ch n content.
@@ -280,11 +334,13 @@ Section Main.
       cbn [length]. destruct (length X); reflexivity.
   Qed.
 
-  Lemma para_try_app rec c body B ln st : wf_b (FPara c body) = true ->
-    try_types types rec types (text_of (spell (FPara c body)) ++ NL :: B) ln st = Some (pre_of md ln (FPara c body), 1%nat, st).
+  Lemma para_try_app rec c body more B ln st : wf_b (FPara c body more) = true ->
+    try_types types rec types (text_of (spell (FPara c body more)) ++ NL :: B) ln st =
+    Some (pre_of md ln (FPara c body more), length (text_of (spell (FPara c body more))), st).
   Proof.
-    intros Hw. pose proof (para_try rec c body ln st Hw) as T. cbn [spell text_of map app] in *.
-    destruct (try_types_app types rec B (render_line (SLine 0 c body)) [] ln st types) as [T1 _].
+    intros Hw. pose proof (para_try rec c body more ln st Hw) as T. destruct (wf_para c body more Hw) as (_ & _ & Hc).
+    rewrite (para_text c body more Hc) in *. unfold nl_lines in *. cbn [map app length] in *. rewrite map_length.
+    destruct (try_types_app types rec B ((c :: body) ++ [10]) (map (fun l => l ++ [10]) more) ln st types) as [T1 _].
     destruct (T1 _ _ _ T eq_refl) as (E & _ & _). exact E.
   Qed.
 
@@ -300,14 +356,14 @@ Section Main.
   Lemma first_line_follower t : is_item t = false -> wf_b t = true ->
     exists l2 more, text_of (spell t) = l2 :: more /\ (forall p, 0 < p -> parse_continuation l2 p = None) /\ parse_marker l2 = None.
   Proof.
-    intros Hi Hw. destruct t as [c body|ch n content|ts|mk pad ts]; [| | |discriminate].
-    - cbn [wf_b] in Hw. apply andb_true_iff in Hw as [Hw Hnm]. apply andb_true_iff in Hw as [Hw _]. apply plain_line_reflect in Hw.
-      destruct Hw as (Hpl & Hf1 & _ & _). cbn [hd] in Hf1.
+    intros Hi Hw. destruct t as [c body more|ch n content|ts|mk pad ts|lv hc hb]; [| | |discriminate|].
+    - destruct (wf_para c body more Hw) as (Hw' & Hnm & _).
+      destruct Hw' as (Hpl & Hf1 & _ & _). cbn [hd] in Hf1.
       assert (Hc : first_ok c = true).
       { apply nonspace_first_ok. unfold nonspace. change (cat_match CatSpace c) with (is_space_c c). rewrite (plain_first_not_space c Hf1). reflexivity. }
       assert (Hb : mem 10 body = false).
       { pose proof (plain_no 10 (c :: body) eq_refl Hpl) as M. unfold mem in M. cbn [existsb] in M. apply orb_false_iff in M. tauto. }
-      exists (line_of 0 c body), []. split; [reflexivity|]. split.
+      cbn [spell text_of map render_line]. eexists. eexists. split; [reflexivity|]. split.
       + intros p Hp0. apply parse_continuation_short; assumption.
       + unfold parse_marker, line_of. cbn [repeat app]. rewrite rmatch_first by exact Hnm. reflexivity.
     - destruct (fence_wf ch n content Hw) as ((Hch & Hn) & _ & _). cbn [spell text_of map].
@@ -323,12 +379,17 @@ Section Main.
         pose proof (nonspace_first_ok c0 Hc0) as F. unfold first_ok in F. apply negb_true_iff in F. apply orb_false_iff in F as [_ F10].
         unfold mem in *. cbn [existsb]. rewrite Z.eqb_sym in F10. rewrite F10, Hb0. reflexivity.
       + unfold line_of. cbn [repeat app]. apply marker_gt.
+    - destruct (head_wf lv hc hb Hw) as [((H1 & _) & H10 & _) _]. rewrite head_text by exact H1. rewrite (hline_sline lv hc hb H1).
+      eexists. eexists. split; [reflexivity|]. cbn [render_line]. split.
+      + intros p Hp0. apply parse_continuation_short; [reflexivity| |exact Hp0].
+        unfold mem. rewrite existsb_app. fold (mem 10 (repeat 35 (lv - 1))). rewrite (mem_repeat 10 35) by lia. cbn [existsb orb Z.eqb Pos.eqb]. exact H10.
+      + unfold parse_marker, line_of. cbn [repeat app]. rewrite rmatch_first; [reflexivity|]. pose proof hash_facts as F. repeat rewrite andb_true_iff in F. tauto.
   Qed.
 
   Lemma C_from f : (forall f', f = S f' -> Q f') -> C f.
   Proof.
-    intros HQ t ln st Hw Hd. destruct t as [c body|ch n content|ts|mk pad ts].
-    - split; [discriminate|]. intros B _. rewrite para_try_app by exact Hw. reflexivity.
+    intros HQ t ln st Hw Hd. destruct t as [c body more|ch n content|ts|mk pad ts|lv hc hb].
+    - split; [cbn [spell text_of map]; discriminate|]. intros B _. rewrite para_try_app by exact Hw. reflexivity.
     - split; [destruct (fence_wf ch n content Hw) as ((_ & H3) & _); rewrite fence_text by lia; discriminate|].
       intros B _. rewrite fence_try by exact Hw. reflexivity.
     - destruct f as [|f']; [cbn [depth] in Hd; lia|]. specialize (HQ f' eq_refl).
@@ -361,6 +422,8 @@ Section Main.
       rewrite (HQ ts ln st Hs Hall (children_depth ts f' Hd)).
       rewrite pre_of_item. cbn [length st_after]. rewrite map_length.
       destruct md; [rewrite andb_false_r; reflexivity|]. rewrite pre_seq_length. unfold nlines. cbn [negb andb]. rewrite andb_diag. reflexivity.
+    - destruct (head_wf lv hc hb Hw) as [((H1 & _) & _) _]. split; [rewrite head_text by exact H1; discriminate|].
+      intros B _. rewrite head_try by exact Hw. rewrite head_text by exact H1. reflexivity.
   Qed.
 
   Lemma Q_from f : P f -> C f -> Q f.
@@ -390,7 +453,7 @@ Section Main.
 
   Lemma P_succ f : Q f -> P (S f).
   Proof.
-    intros HQ t ln st Hw Hd. destruct t as [c body|ch n content|ts|mk pad ts].
+    intros HQ t ln st Hw Hd. destruct t as [c body more|ch n content|ts|mk pad ts|lv hc hb].
     - rewrite para_tokenize by exact Hw. reflexivity.
     - rewrite fence_tokenize by exact Hw. reflexivity.
     - cbn [wf_b] in Hw. repeat rewrite andb_true_iff in Hw. destruct Hw as [[Hs Hall] Hg].
@@ -408,13 +471,15 @@ Section Main.
       rewrite (HQ ts ln st Hs Hall (children_depth ts f Hd)).
       rewrite pre_of_item.
       destruct md; [rewrite andb_false_r; reflexivity|]. rewrite pre_seq_length. unfold nlines. cbn [negb andb]. rewrite andb_diag. reflexivity.
+    - rewrite head_tokenize by exact Hw. reflexivity.
   Qed.
 
   Lemma P_zero : P 0.
   Proof.
-    intros t ln st Hw Hd. destruct t as [c body|ch n content|ts|mk pad ts]; [| |cbn [depth] in Hd; lia|cbn [depth] in Hd; lia].
+    intros t ln st Hw Hd. destruct t as [c body more|ch n content|ts|mk pad ts|lv hc hb]; [| |cbn [depth] in Hd; lia|cbn [depth] in Hd; lia|].
     - rewrite para_tokenize by exact Hw. reflexivity.
     - rewrite fence_tokenize by exact Hw. reflexivity.
+    - rewrite head_tokenize by exact Hw. reflexivity.
   Qed.
 
   Theorem fragment_all : forall f, P f /\ Q f.
@@ -433,7 +498,7 @@ End Main.
 (* ---- the token configurations that are modelled qualify ---- *)
 From Mistletoe Require Import Model.Parser.
 Definition fragment_config (types : list block_kind) : bool :=
-  no_blankline_kind types && quote_first types && list_first types && existsb (fun k => kind_eqb k BK_Paragraph) types && fence_first types.
+  no_blankline_kind types && quote_first types && list_first types && existsb (fun k => kind_eqb k BK_Paragraph) types && fence_first types && heading_first types.
 Lemma fragment_configs :
   forallb (fun c => fragment_config (cfg_block c)) [cfg_html; cfg_html_nohtml; cfg_latex; cfg_mathjax; cfg_default] = true.
 Proof. vm_compute. reflexivity. Qed.
@@ -441,7 +506,7 @@ Proof. vm_compute. reflexivity. Qed.
 Theorem fragment_tree_cfg types t f ln st : fragment_config types = true -> wf_b t = true -> (depth t <= f)%nat ->
   tokenize_block types (S f) (text_of (spell t)) ln st = ([pre_of false ln t], false, st_after st t).
 Proof.
-  unfold fragment_config. intros H. repeat rewrite andb_true_iff in H. destruct H as [[[[H1 H2] H3] H4] H5].
+  unfold fragment_config. intros H. repeat rewrite andb_true_iff in H. destruct H as [[[[[H1 H2] H3] H4] H5] H6].
   apply (fragment_tree types false); try assumption; [|apply in_dec_paragraph; exact H4].
   intros rec m B ln0 acc lo st0. rewrite dispatch_nl by exact H1. cbn [blank_entry app negb]. rewrite orb_true_r. reflexivity.
 Qed.
@@ -462,10 +527,10 @@ Qed.
 (* non-vacuity: a fence inside a list inside a quote inside a list ... *)
 Example fragment_instance :
   let fence := FFence 96 3 [SLine 2 120 $" = 1"; SBlank; SLine 0 35 $" not a heading"] in
-  let t1 := FItem (MBullet 45) 2 [FPara 97 $"b"; FQuote [FPara 99 $"d"; FItem (MOrdered $"12" 41) 1 [FPara 101 []; fence]; FPara 103 []]; FPara 102 []] in
-  let t2 := FQuote [FQuote [FPara 97 []]; fence; FPara 98 []; t1] in
+  let t1 := FItem (MBullet 45) 2 [FPara 97 $"b" []; FQuote [FPara 99 $"d" []; FItem (MOrdered $"12" 41) 1 [FPara 101 [] []; fence]; FPara 103 [] []]; FPara 102 [] []] in
+  let t2 := FQuote [FQuote [FPara 97 [] []]; fence; FPara 98 [] []; t1] in
   wf_b t2 = true /\ depth t2 = 4%nat /\ length (spell t2) = 25%nat /\
-  text_of (spell (FItem (MOrdered $"12" 41) 1 [FPara 101 []; fence])) =
+  text_of (spell (FItem (MOrdered $"12" 41) 1 [FPara 101 [] []; fence])) =
     [ $"12) e" ++ [10]; [10]; $"    ```" ++ [10]; $"      x = 1" ++ [10]; [10]; $"    # not a heading" ++ [10]; $"    ```" ++ [10] ].
 Proof. vm_compute. repeat split; reflexivity. Qed.
 
@@ -482,7 +547,7 @@ Section TokOf.
                   | t :: r => tok_of t :: match r with [] => [] | _ => blank_tok ++ seq r end
                   end) in
     match t with
-    | FPara c body => Paragraph [RawText (c :: body)]
+    | FPara c body more => Paragraph (prose_toks ((c :: body) :: more))
     | FFence ch n content => CodeFence (mkFence 0 (repeat ch n) [] [] (concat (map render_line content)))
     | FQuote ts => Quote (seq ts)
     | FItem mk pad ts =>
@@ -490,6 +555,7 @@ Section TokOf.
       let loose := negb md && (1 <? Z.of_nat (length ts)) in
       List (if slen leader =? 1 then None else Some (int_of_digits (removelast leader))) loose
            [ListItem (mkItem leader 0 (Z.of_nat (length leader + pad)) loose) (seq ts)]
+    | FHead lv c body => Heading (Z.of_nat lv) [] [RawText (c :: body)]
     end.
   Fixpoint tok_seq (ts : list ftree) : list tok :=
     match ts with
@@ -503,18 +569,32 @@ Section Tokens.
   Variable keep : bool.
   Variable fn : footnotes.
   Variable md : bool.
-  Hypothesis Hquiet : forallb kind_quiet (removelast span_types) = true.
+  Hypothesis Hquiet : prose_spans span_types = true.
+
+  Lemma build_para c body more ln : wf_b (FPara c body more) = true ->
+    build span_types keep fn (pre_of md ln (FPara c body more)) = Some (tok_of md (FPara c body more)).
+  Proof.
+    intros Hw. destruct (wf_para c body more Hw) as (PL & _ & Hc). rewrite para_pre. cbn [build tok_of].
+    pose proof (strip_prose (c :: body) more PL Hc) as E.
+    match goal with |- context [strip ?x] => replace (strip x) with (join [10] ((c :: body) :: more)) by (symmetry; exact E) end. unfold inline.
+    rewrite (tokenize_inner_spans span_types fn ((c :: body) :: more) Hquiet); [reflexivity|discriminate|].
+    constructor; [apply line_ok_of_plain; exact PL|]. apply Forall_forall. intros x Hx. rewrite Forall_forall in Hc. apply line_ok_of_plain. apply (Hc x Hx).
+  Qed.
+
+  Lemma build_head lv c body ln : wf_b (FHead lv c body) = true ->
+    build span_types keep fn (pre_of md ln (FHead lv c body)) = Some (tok_of md (FHead lv c body)).
+  Proof.
+    intros Hw. cbn [wf_b] in Hw. repeat rewrite andb_true_iff in Hw. destruct Hw as [[[[[[_ _] Hp] _] _] _] H7]. apply negb_true_iff in H7.
+    cbn [pre_of build tok_of]. unfold inline. change (c :: body) with (join [10] [c :: body]) at 1.
+    rewrite (tokenize_inner_spans span_types fn [c :: body] Hquiet); [reflexivity|discriminate|].
+    constructor; [|constructor]. repeat split; [exact Hp|discriminate|]. intros E. rewrite E in H7. vm_compute in H7. discriminate.
+  Qed.
 
   Lemma build_fragment : forall f t ln, (depth t <= f)%nat -> wf_b t = true ->
     build span_types keep fn (pre_of md ln t) = Some (tok_of md t).
   Proof.
     induction f as [|f IH]; intros t ln Hd Hw.
-    - destruct t as [c body|ch n content|ts|mk pad ts]; [|reflexivity|cbn [depth] in Hd; lia|cbn [depth] in Hd; lia].
-      cbn [wf_b] in Hw. apply andb_true_iff in Hw as [Hw _]. apply andb_true_iff in Hw as [Hw _]. apply plain_line_reflect in Hw.
-      cbn [pre_of build map concat tok_of]. rewrite app_nil_r.
-      change (c :: body ++ [10]) with ((c :: body) ++ [10]).
-      destruct (strip_line (c :: body) Hw) as [S _]. rewrite S.
-      unfold inline. destruct Hw as (Hp & _ & Hne & _). rewrite tokenize_inner_plain by assumption. reflexivity.
+    - destruct t as [c body more|ch n content|ts|mk pad ts|lv hc hb]; [apply build_para; exact Hw|reflexivity|cbn [depth] in Hd; lia|cbn [depth] in Hd; lia|apply build_head; exact Hw].
     - assert (Kids : forall ts ln, Forall (fun t => (depth t <= f)%nat) ts -> forallb wf_b ts = true ->
                 flat_map (fun e => match build span_types keep fn e with Some t => [t] | None => [] end) (pre_seq md ln ts) = tok_seq md ts).
       { induction ts as [|t0 r IHr]; intros ln0 Hds Hws; [reflexivity|].
@@ -522,12 +602,7 @@ Section Tokens.
         cbn [pre_seq flat_map tok_seq]. rewrite (IH t0 ln0) by assumption. cbn [app]. f_equal.
         destruct r as [|t1 r']; [reflexivity|]. rewrite flat_map_app. rewrite IHr by assumption.
         f_equal. unfold blank_entry, blank_tok. destruct md; reflexivity. }
-      destruct t as [c body|ch n content|ts|mk pad ts]; [|reflexivity| |].
-      + cbn [wf_b] in Hw. apply andb_true_iff in Hw as [Hw _]. apply andb_true_iff in Hw as [Hw _]. apply plain_line_reflect in Hw.
-        cbn [pre_of build map concat tok_of]. rewrite app_nil_r.
-        change (c :: body ++ [10]) with ((c :: body) ++ [10]).
-        destruct (strip_line (c :: body) Hw) as [S _]. rewrite S.
-        unfold inline. destruct Hw as (Hp & _ & Hne & _). rewrite tokenize_inner_plain by assumption. reflexivity.
+      destruct t as [c body more|ch n content|ts|mk pad ts|lv hc hb]; [apply build_para; exact Hw|reflexivity| | |apply build_head; exact Hw].
       + cbn [wf_b] in Hw. repeat rewrite andb_true_iff in Hw. destruct Hw as [[_ Hall] _].
         rewrite pre_of_quote. cbn [build]. rewrite Kids; [reflexivity| |exact Hall].
         apply children_depth. cbn [depth] in Hd. exact Hd.
@@ -540,7 +615,7 @@ End Tokens.
 
 (* parse-after-write on the fragment, through the inline phase: the token tree is the tree the text was written from *)
 Theorem fragment_token_tree types span_types keep fn t f ln st :
-  fragment_config types = true -> forallb kind_quiet (removelast span_types) = true -> wf_b t = true -> (depth t <= f)%nat ->
+  fragment_config types = true -> prose_spans span_types = true -> wf_b t = true -> (depth t <= f)%nat ->
   make_tokens span_types keep fn (fst (fst (tokenize_block types (S f) (text_of (spell t)) ln st))) = [tok_of false t].
 Proof.
   intros Hc Hq Hw Hd. rewrite fragment_tree_cfg by assumption. cbn [fst]. unfold make_tokens. cbn [flat_map].
@@ -548,7 +623,7 @@ Proof.
 Qed.
 
 Theorem fragment_token_tree_markdown span_types keep fn t f ln st :
-  forallb kind_quiet (removelast span_types) = true -> wf_b t = true -> (depth t <= f)%nat ->
+  prose_spans span_types = true -> wf_b t = true -> (depth t <= f)%nat ->
   make_tokens span_types keep fn (fst (fst (tokenize_block block_types_markdown (S f) (text_of (spell t)) ln st))) = [tok_of true t].
 Proof.
   intros Hq Hw Hd. rewrite fragment_tree_markdown by assumption. cbn [fst]. unfold make_tokens. cbn [flat_map].
